@@ -17,8 +17,9 @@
 EXTENDS Naturals, Sequences, FiniteSets, TLC
 CONSTANTS MaxClasses, MaxCtors, MaxMethods, MaxProps, MaxStatics, MaxFuncs
 
-Shapes == [virtual : BOOLEAN, ctors : 0..MaxCtors, methods : 0..MaxMethods, props : 0..MaxProps,
+Shapes == [virtual : BOOLEAN, ctors : 0..MaxCtors, methods : 0..MaxMethods, props : 0..MaxProps, roprops : 0..1,
            statics : 0..MaxStatics, deser : BOOLEAN, funcs : 0..MaxFuncs]   \* funcs: free functions allocated after the class
+\* (props: read-write properties, a getter and a setter id each; roprops: const properties, a getter id only)
 
 VARIABLES todo, nextId, map, sites, phase, w, nextCase, cases, routines
 vars == <<todo, nextId, map, sites, phase, w, nextCase, cases, routines>>
@@ -48,7 +49,8 @@ AllocClass ==
          a2 == a1 + s.ctors                               \* dtor
          a3 == a2 + 1                                     \* methods
          a4 == a3 + nMeth                                 \* props (get, set alternate)
-         a5 == a4 + 2 * s.props                           \* statics
+         a4b == a4 + 2 * s.props                          \* getters of const properties
+         a5 == a4b + s.roprops                            \* statics
          a6 == a5 + s.statics                             \* deserialize
          a7 == a6 + (IF s.deser THEN 1 ELSE 0)            \* functions
          a8 == a7 + s.funcs
@@ -56,7 +58,8 @@ AllocClass ==
      IN /\ map' = map @@ coll
                   @@ seg("constructor", s.ctors, a1) @@ (a2 :> Entry(c, "deconstructor", 0, a2))
                   @@ seg("method", nMeth, a3)
-                  @@ [i \in a4..(a5 - 1) |-> Entry(c, IF (i - a4) % 2 = 0 THEN "getter" ELSE "setter", (i - a4) \div 2 + 1, i)]
+                  @@ [i \in a4..(a4b - 1) |-> Entry(c, IF (i - a4) % 2 = 0 THEN "getter" ELSE "setter", (i - a4) \div 2 + 1, i)]
+                  @@ [i \in a4b..(a5 - 1) |-> Entry(c, "getter", s.props + (i - a4b) + 1, i)]
                   @@ seg("static", s.statics, a5)
                   @@ (IF s.deser THEN (a6 :> Entry(c, "deserialize", 0, a6)) ELSE <<>>)
                   @@ seg("function", s.funcs, a7)
@@ -64,7 +67,8 @@ AllocClass ==
                   \cup (IF s.virtual THEN {Site(u + 1, c, "upcast", 0), Site(u, c, "collector", 0)} ELSE {Site(u, c, "collector", 0)})
                   \cup PlainSites(c, "constructor", s.ctors, a1) \cup {Site(a2, c, "deconstructor", 0)}
                   \cup PlainSites(c, "method", nMeth, a3)
-                  \cup {Site(i, c, IF (i - a4) % 2 = 0 THEN "getter" ELSE "setter", (i - a4) \div 2 + 1) : i \in a4..(a5 - 1)}
+                  \cup {Site(i, c, IF (i - a4) % 2 = 0 THEN "getter" ELSE "setter", (i - a4) \div 2 + 1) : i \in a4..(a4b - 1)}
+                  \cup {Site(i, c, "getter", s.props + (i - a4b) + 1) : i \in a4b..(a5 - 1)}
                   \cup PlainSites(c, "static", s.statics, a5)
                   \cup (IF s.deser THEN {Site(a6, c, "deserialize", 0)} ELSE {})
                   \cup PlainSites(c, "function", s.funcs, a7)
